@@ -133,12 +133,16 @@ def snapshot():
     sc = core.default_scorer()
     mdl = core.scorer_model(sc)
     if mdl is not None:
-        snap["vocab"] = sorted(mdl.transformer.vocabulary.items())
-        snap["prior"] = list(mdl.estimator.class_prior)
-        snap["ll_neg"] = list(mdl.estimator.log_likelihood["negative_class"])
-        snap["ll_pos"] = list(mdl.estimator.log_likelihood["positive_class"])
-        snap["alpha"] = mdl.estimator.alpha
-        snap["ngram_range"] = list(mdl.transformer.ngram_range)
+        tabs = core.model_tables(mdl)
+        if tabs is not None:
+            snap["vocab"] = sorted(tabs[0].items())
+            snap["prior"] = list(tabs[1])
+            snap["ll_neg"], snap["ll_pos"] = tabs[2], tabs[3]
+        else:
+            # unknown representation: the pickle of the whole model stands in for its tables
+            snap["model_pickle"] = pickle.dumps(mdl)
+        snap["alpha"] = getattr(mdl.estimator, "alpha", None)
+        snap["ngram_range"] = list(getattr(mdl.transformer, "ngram_range", ()))
     import ctparse.types as T
     snap["pod_hours"] = sorted(T.pod_hours.items())
     return snap
